@@ -38,6 +38,23 @@ Theorem C13_reveal_total_md5 : forall t v secret rv,
             (forall a, r = Ok a -> attr_type a = t /\ is_hidden a = false).
 Proof. exact (reveal_total md5 md5_len). Qed.
 
+(** the classification for the hash the crate uses, stated on the Model's reveal: every input lands in
+    exactly one class and the Model returns that class's value *)
+Theorem C13_reveal_classes_md5 : forall t v secret rv,
+  let p := s_decrypt md5 t secret rv v in
+  let L := fld 2 0 p in
+  (len v = 0 -> m_reveal md5 (AHidden t v) secret rv = Val (Err EmptyHiddenAVP)) /\
+  (len v <> 0 -> len v mod 16 <> 0 -> m_reveal md5 (AHidden t v) secret rv = Val (Err MisalignedHiddenAVP)) /\
+  (len v <> 0 -> len v mod 16 = 0 -> (L < 6 \/ 1023 < L \/ len p - 2 < L - 6) ->
+     m_reveal md5 (AHidden t v) secret rv = Val (Err (InvalidOriginalAVPLength L))) /\
+  (len v <> 0 -> len v mod 16 = 0 -> 6 <= L -> L <= 1023 -> L - 6 <= len p - 2 ->
+     m_reveal md5 (AHidden t v) secret rv = Val (s_payload t (octs (L - 6) 2 p))).
+Proof.
+  intros t v secret rv. cbv zeta. rewrite (reveal_refines md5 md5_len).
+  destruct (reveal_cases md5 md5_len t v secret rv) as [A [B [C D]]].
+  repeat split; intros; f_equal; auto.
+Qed.
+
 (** the D7 class of the pinned tree: 16 zero octets under a wrong key return, they do not panic *)
 Example C13_D7 : exists r, m_reveal md5 (AHidden 7 (repeat 0 16)) [115] [0;0;0;37] = Val r.
 Proof. eexists. vm_compute. reflexivity. Qed.
@@ -46,3 +63,4 @@ Print Assumptions C13_reveal_total.
 Print Assumptions C13_rejects.
 Print Assumptions C13_reveal_classes.
 Print Assumptions C13_reveal_total_md5.
+Print Assumptions C13_reveal_classes_md5.
